@@ -534,4 +534,20 @@ theorem optimize_is_minimumW (cfg : Settings) (gates : List Gate) (n W : Nat) (h
   ⟨optimize_result_is_planW cfg gates n W hW rnds fuel r hc hn hγ h,
    fun p hal hf => optimize_min_over_all_plans cfg gates n W hW rnds fuel r hn hγ h hflag p hal gs hg0 hbig hc hf⟩
 
+/-- **C08, gate cuts permitted** (with or without wire cuts): the greedy pass then always finds an incumbent, so the hypothesis about it
+disappears — flag set ⇒ the reported overhead is attained by a width-feasible plan and no width-feasible plan the settings permit costs
+less (`hbig`: the incumbent's cost is below the range of the model's `ceilLog2`) -/
+theorem optimize_is_minimum_gate_lo (cfg : Settings) (hlo : cfg.gateLO = true) (gates : List Gate) (n W : Nat) (hW : 1 ≤ W)
+    (rnds : List Rat) (fuel : Nat) (r : Result)
+    (hc : CircOKW gates n) (hn : (gates.map (·.idx)).Nodup) (hγ : ∀ g ∈ gates, ∀ x, g.gamma = some x → 1 ≤ x)
+    (h : optimize cfg gates n W rnds fuel = .ok r) (hflag : r.minReached = true)
+    (hbig : ∀ gs, greedy cfg gates W (gates.length + 1) (St.init n (gates.map (·.qubits.length)).sum) = .ok (some gs) →
+      gs.gammaUB + 1 ≤ (2 : Rat) ^ 4096) :
+    (∃ p, Feasible gates p n W ∧ costUpTo gates p gates.length = r.best.gammaUB ∧ Allowed cfg p) ∧
+    ∀ p, Allowed cfg p → Feasible gates p n W → r.best.gammaUB ≤ costUpTo gates p gates.length := by
+  obtain ⟨gs, hgs⟩ := greedy_some_gate_cut cfg gates W n hlo hn hc.lt
+    (fun g hg => ⟨hc.two g hg, Option.isSome_iff_exists.1 (hc.gam g hg)⟩) (gates.length + 1)
+    (St.init n (gates.map (·.qubits.length)).sum) (init_inv W n _ hW) (init_inv2 n _) (by simp [St.init])
+  exact optimize_is_minimumW cfg gates n W hW rnds fuel r hc hn hγ h hflag gs hgs (hbig gs hgs)
+
 end CKT.C08Wire
